@@ -1,81 +1,74 @@
 (* C17 - XML serializer output re-parses to the same namespaced tree.
    Only statements, closed by [exact], and their assumptions.
-   Model: XmlNs/XSerModel.v (XmlSerializer driven by RcDom's traversal);
+   Model: XmlNs/XSerModel.v (XmlSerializer driven by RcDom's traversal, as of
+   the repairs 1365bbe, 94524fa, 90b86cd, cc87c47, e751ebf in /repo);
    specification: XmlNs/XSerSpec.v. *)
 From Coq Require Import List NArith Bool.
 From HV Require Import XmlNs.XTreeModel XmlNs.XSerModel XmlNs.XSerSpec XmlNs.XSerProofs XmlNs.XRoundTrip.
 Import ListNotations.
 Local Open Scope N_scope.
 
-(* C17_decl_adequate outside the finding classes: in the serializer's output
-   every prefix used by an element or attribute name is bound to the name's
-   namespace URI by a declaration WRITTEN on that element or an open ancestor
-   (xml / xmlns are bound by definition), unprefixed elements see their own
-   namespace as the default namespace and unprefixed attributes have none -
-   for every document on which the silent registrations (attribute prefixes
-   after the declarations were written, end_elem into the parent's map) are
-   never relied upon and no xmlns="" would be needed ([ser_clean]) *)
-Theorem C17_decl_adequate_outside_finding :
-  forall kids, ser_clean kids = true -> adequate (ser_doc kids) [] = true.
-Proof. exact decl_adequate_outside_finding. Qed.
-Print Assumptions C17_decl_adequate_outside_finding.
+(* C17_decl_adequate, for EVERY document: in the serializer's output every
+   prefix used by an element or attribute name is bound to the name's namespace
+   URI by a declaration WRITTEN on that element or an open ancestor (xml /
+   xmlns are bound by definition), unprefixed elements see their own namespace
+   as the default namespace and unprefixed attributes have none.
+   [forest_cons] is not a condition on the serializer but on what a tag can
+   express at all: one prefix names one URI per tag, and an unprefixed
+   attribute is in no namespace.
+   (Before the repairs this held only for documents on which the silent
+   registrations were never relied upon - [ser_clean] - and was refuted by
+   <a xmlns:p="u" p:x="1"/>, <r><p:a xmlns:p="u"/><p:b xmlns:p="u"/></r>,
+   <a xmlns="u"><b xmlns=""/></a>: repaired in /repo, commits cc87c47, 90b86cd,
+   e751ebf.) *)
+Theorem C17_decl_adequate :
+  forall kids, forest_cons kids = true -> adequate (ser_doc kids) [] = true.
+Proof. exact decl_adequate. Qed.
+Print Assumptions C17_decl_adequate.
 
-(* the three declaration findings of DESIGN 6.3 row 10, on the model of the code as it is *)
-Theorem C17_decl_adequate_refuted :
-  adequate (ser_doc wA) [] = false /\ adequate (ser_doc wB) [] = false /\ adequate (ser_doc wC) [] = false.
-Proof. exact decl_adequate_refuted. Qed.
-Print Assumptions C17_decl_adequate_refuted.
+(* the former witnesses are now adequately declared ... *)
+Theorem C17_former_witnesses_adequate :
+  adequate (ser_doc wA) [] = true /\ adequate (ser_doc wB) [] = true /\ adequate (ser_doc wC) [] = true.
+Proof. exact witnesses_adequate. Qed.
+Print Assumptions C17_former_witnesses_adequate.
 
 (* C17_escape_reversible: what write_to_buf_escaped writes for a text node /
    an attribute value is read back unchanged by the Data / double-quoted
-   attribute value states (predefined entities, CR LF normalisation), for every
-   string without CR and U+0000 ... *)
+   attribute value states (predefined entities, &#13;, CR LF normalisation), for
+   every string without U+0000 (which no parsed tree contains).
+   (Before the repair CR had to be excluded: "\r" was written raw and came back
+   as "\n" - repaired in /repo, commit 1365bbe.) *)
 Theorem C17_escape_reversible_text :
-  forall s rest, no_cr_nul s = true ->
+  forall s rest, no_nul s = true ->
   lex_text (S (length (escape false s ++ 60 :: rest))) (escape false s ++ 60 :: rest) = Some (s, 60 :: rest).
 Proof. exact escape_text_reversible. Qed.
 Print Assumptions C17_escape_reversible_text.
 
+(* also the form in which a namespace URI is written into an xmlns declaration
+   (written raw before commit 94524fa) *)
 Theorem C17_escape_reversible_attr :
-  forall s rest, no_cr_nul s = true ->
+  forall s rest, no_nul s = true ->
   lex_attr_value (S (length (escape true s ++ 34 :: rest))) (escape true s ++ 34 :: rest) = Some (s, rest).
 Proof. exact escape_attr_reversible. Qed.
 Print Assumptions C17_escape_reversible_attr.
 
-(* ... and not for CR (DESIGN 6.3 row 10): "\r" comes back as "\n" *)
-Theorem C17_escape_refuted_cr :
-  lex_text 3 (escape false [13] ++ [60]) = Some ([10], [60]).
-Proof. exact escape_text_refuted_cr. Qed.
-Print Assumptions C17_escape_refuted_cr.
-
-(* the ghost-instrumented serializer used to describe the finding classes is
-   the serializer: same items *)
-Theorem C17_instrumentation_is_erasable :
-  forall l st ph, length ph = length st ->
-  fst (fst (fst (ser_nodes_g l st ph))) = fst (ser_nodes l st).
-Proof. exact ser_nodes_g_erase. Qed.
-Print Assumptions C17_instrumentation_is_erasable.
-
 (* C17_roundtrip_partial: the round trip at TOKEN level.
-   Full statement: forall x, let t := tree (parse x) in
-     t outside the finding classes -> tree (parse (serialize t)) = t.
-   Proved here: for every document [kids] of the shape the parser produces
-   (prolog of comments / PIs / at most one doctype, one root element, epilog of comments /
-   PIs; no adjacent text nodes; names that print and split back; xml / xmlns
-   fixed; attributes with distinct expanded names that are not declarations),
-   on which the serializer's bookkeeping defects do not come into play
-   ([ser_clean]) - all of it one decidable check [rt_hyps]; the former
-   condition on the written tags (C16 classes, DESIGN 6.3 rows 8/9) is gone
-   with the repair of those defects - the tokens denoted by the serializer's items
-   ([item_rtoken]: start tag with the written declarations and attributes, end
-   tag, text, comment, PI, doctype), run through the tokenizer's attribute
-   stage and the tree builder model, rebuild the same document (doctype ids
-   blanked: they are outside the serializer API).
+   Full statement: forall x, let t := tree (parse x) in tree (parse (serialize t)) = t.
+   Proved here, with NO condition on the serializer's behaviour left: for every
+   document [kids] of the shape the parser produces (prolog of comments / PIs /
+   at most one doctype, one root element, epilog of comments / PIs; no adjacent
+   text nodes; names that print and split back; xml / xmlns fixed; attributes
+   with distinct expanded names that are not declarations; one prefix = one URI
+   per tag) - one decidable check [rt_hyps] - the tokens denoted by the
+   serializer's items ([item_rtoken]: start tag with the written declarations
+   and attributes, end tag, text, comment, PI, doctype), run through the
+   tokenizer's attribute stage and the tree builder model, rebuild the same
+   document (doctype ids blanked: they are outside the serializer API).
    What is missing for the full statement:
    (1) the XML tokenizer's lexing of the characters [render] writes into those
        tokens (tags, attributes, comments, PIs) - tied by the item-denotation
-       correspondence of the check; for character data and attribute values it
-       is C17_escape_reversible_* above;
+       correspondence of the check; for character data, attribute values and
+       namespace URIs it is C17_escape_reversible_* above;
    (2) "t = tree (parse x)" is replaced by the explicit shape conditions; that
        parsed trees satisfy them is tested on every generated tree, not proved. *)
 Theorem C17_roundtrip_partial :
@@ -88,26 +81,23 @@ Theorem C17_roundtrip_partial_explicit :
   let kids := pre ++ XElem name attrs ks :: post in
   forallb is_prolog pre = true -> dt_ok false pre = true -> forallb is_misc post = true ->
   node_wf (XElem name attrs ks) = true ->
-  ser_clean kids = true ->
   reparse kids = map strip_ids kids.
-Proof. exact roundtrip_tokens_outside_finding. Qed.
+Proof. exact roundtrip_tokens. Qed.
 Print Assumptions C17_roundtrip_partial_explicit.
 
-(* the unconditional round trip is false for the model of the code as it is *)
-Theorem C17_roundtrip_refuted :
-  roundtrip_tok wA = false /\ roundtrip_tok wB = false /\ roundtrip_tok wC = false.
-Proof. exact roundtrip_refuted. Qed.
-Print Assumptions C17_roundtrip_refuted.
-
-Theorem C17_witnesses_are_in_the_classes :
-  ser_clean wA = false /\ ser_clean wB = false /\ ser_clean wC = false /\ ser_clean wD = true.
-Proof. exact witnesses_not_clean. Qed.
-Print Assumptions C17_witnesses_are_in_the_classes.
+(* ... and survive the token-level round trip, as do the CR and the
+   quoted-URI witnesses (all five were refutations before the repairs) *)
+Theorem C17_former_witnesses_roundtrip :
+  roundtrip_tok wA = true /\ roundtrip_tok wB = true /\ roundtrip_tok wC = true /\
+  roundtrip_tok wD = true /\ roundtrip_tok wE = true.
+Proof. exact witnesses_roundtrip. Qed.
+Print Assumptions C17_former_witnesses_roundtrip.
 
 (* non-vacuity: a namespaced tree with a prefixed attribute, nested use of the
-   prefix and escaped characters is clean, adequately declared and survives the
-   token-level round trip (a TEST by vm_compute, not a proof of the round trip) *)
+   prefix and escaped characters is consistent, adequately declared and
+   survives the token-level round trip; with a prolog and an epilog around it
+   it satisfies the hypotheses of C17_roundtrip_partial *)
 Example C17_nonvacuous :
-  ser_clean ex_tree = true /\ adequate (ser_doc ex_tree) [] = true /\ roundtrip_tok ex_tree = true /\
+  forest_cons ex_tree = true /\ adequate (ser_doc ex_tree) [] = true /\ roundtrip_tok ex_tree = true /\
   rt_hyps ex_doc2 = true.
 Proof. destruct ex_tree_ok as (A & B & C). pose proof ex_doc2_hyps as D. repeat split; assumption. Qed.
